@@ -190,6 +190,10 @@ class BitStringEncoder(AbstractItemEncoder):
             # TODO: try to avoid ASN.1 schema instantiation
             value = asn1Spec.clone(value)
 
+        # octet-aligned and chunked intermediate values need not satisfy
+        # constraints (e.g. SIZE) of the value being encoded
+        value = value.clone(subtypeSpec=univ.BitString.subtypeSpec)
+
         valueLength = len(value)
         if valueLength % 8:
             alignedValue = value << (8 - valueLength % 8)
